@@ -100,7 +100,9 @@ class Case:
             l.append("validator " + self.validator)
         if self.printer:
             l.append("printer 1")
-        for k in ("highlight", "signals", "paste", "helper_panic_at", "auto_add", "printers", "printers_late", "linger", "stdout_full", "stdin_ro", "stdout_close_after", "max_hist", "tab_stop", "indent_size", "prompt_limit", "show_all", "bell"):
+        if self.meta.get("key_delay_ms"):
+            l.append("key_delay_ms %d" % self.meta["key_delay_ms"])
+        for k in ("highlight", "signals", "paste", "helper_panic_at", "auto_add", "printers", "printers_late", "linger", "stdout_full", "stdin_ro", "preferterm", "stdout_close_after", "max_hist", "tab_stop", "indent_size", "prompt_limit", "show_all", "bell"):
             if k in self.meta:
                 l.append("%s %s" % (k, self.meta[k]))
         for ks, cmd in self.binds:
@@ -234,7 +236,9 @@ def run_tty_cases(res, exe, driver, cases, tmp, tag, compare_output=True, rng=No
             for k in sorted(c.meta["bursts"]):
                 lst = c.meta["bursts"][k]
                 total += len(lst)
-                ev[k] = list(ev.get(k, [])) + [("print_nowait", t, enc([ord(x) for x in text])) for (t, text) in lst] + \
+                ahead = (c.meta.get("burst_keys") or {}).get(k)
+                first = [("print_with_keys", lst[0][0], enc([ord(x) for x in lst[0][1]]), ahead)] if ahead else []
+                ev[k] = list(ev.get(k, [])) + first + [("print_nowait", t, enc([ord(x) for x in text])) for (t, text) in (lst[1:] if ahead else lst)] + \
                     [("winch_blocked", w) for w in (c.meta.get("blocked_resizes") or {}).get(k, [])] + [("wait_acks", total)]
         jobs.append((exe, c.spec(), ch, c.cols, ev, bool(c.meta.get("sync_keys"))))
     # processes, not threads: the driver polls /proc and must not share a GIL
